@@ -162,6 +162,7 @@ RectClipLinesOK(e, idx) ==
 (***************************************************************************)
 GB == INSTANCE GeometryB
 TS == INSTANCE TrimSM
+CS == INSTANCE CallsBase
 
 Pow2_52 == GB!Mul(GB!FromInt(67108864), GB!FromInt(67108864))
 
@@ -447,4 +448,11 @@ OffExecOK(e, idx) ==
   /\ Chk("OUT", idx, OutOK(e))
   /\ Has(e, "C12") => Chk("C12", idx, e.id \in DOMAIN offsets /\ e.sol = e.fresh.sol
                                        /\ Len(offsets[e.id].groups) = e.ngroups)
+
+(***************************************************************************)
+(* Totality (C03): a replayed call of the degenerate call space returned   *)
+(* the outcome the specification names (normal return, or the documented   *)
+(* precision panic and nothing else) and, for engine executions, success.  *)
+(***************************************************************************)
+CallOK(e, idx) == Chk("C03", idx, e.out = CS!Outcome(e.call) /\ e.ok)
 =============================================================================
